@@ -198,6 +198,7 @@ class Continuous(AgentSchedulingComponent):
         # find at most `n_slots`
         loop_core_idx = 0
         loop_gpu_idx  = 0
+        gpu_shares    = dict()  # GPU shares handed to slots found so far
         node_idx  = node['index']
         node_name = node['name']
 
@@ -260,9 +261,14 @@ class Continuous(AgentSchedulingComponent):
                 for gpu_idx,gpu_occ in enumerate(node['gpus'][loop_gpu_idx:],
                                                               loop_gpu_idx):
 
-                    if gpus_per_slot <= rpc.BUSY - gpu_occ:
+                    # account for shares of this GPU which were handed to
+                    # previously found slots of this request
+                    gpu_used = gpu_occ + gpu_shares.get(gpu_idx, 0.0)
+                    if gpus_per_slot <= rpc.BUSY - gpu_used:
                         slot['gpus'].append(RO(index=gpu_idx,
                                                occupation=gpus_per_slot))
+                        gpu_shares[gpu_idx] = gpus_per_slot + \
+                                              gpu_shares.get(gpu_idx, 0.0)
                         break
                     else:
                         loop_gpu_idx = gpu_idx + 1
